@@ -54,6 +54,7 @@ type FuncContract struct {
 	Notes      []string
 	Inst       []Clause // instantiation hints (integer shift terms)
 	Check      []string // if set: the only safety obligation kinds generated for this function
+	Stores     []*CallSiteSpec // `at store Field#N assert …`: checked right after the N-th store (source order) to a field of that name
 	Src        string
 	Used       bool
 }
@@ -300,6 +301,32 @@ func (c *Contracts) LoadFile(path, pkg string) error {
 			}
 		case "at":
 			// at call <callee>#<n> assert <expr>
+			if len(w) >= 5 && w[1] == "store" {
+				field, ord := w[2], 1
+				if i := strings.LastIndex(field, "#"); i >= 0 {
+					fmt.Sscanf(field[i+1:], "%d", &ord)
+					field = field[:i]
+				}
+				if w[3] != "assert" {
+					return fmt.Errorf("%s: only `assert` is allowed at stores", src)
+				}
+				cl, err := parseSpecExpr(rest(4), src)
+				if err != nil {
+					return err
+				}
+				var ss *CallSiteSpec
+				for _, x := range cur.Stores {
+					if x.Callee == field && x.Ordinal == ord {
+						ss = x
+					}
+				}
+				if ss == nil {
+					ss = &CallSiteSpec{Callee: field, Ordinal: ord}
+					cur.Stores = append(cur.Stores, ss)
+				}
+				ss.Asserts = append(ss.Asserts, cl)
+				break
+			}
 			if len(w) < 5 || w[1] != "call" {
 				return fmt.Errorf("%s: bad at-clause", src)
 			}
